@@ -286,6 +286,9 @@ func (c *Case) Want(b []byte) { c.want, c.hasWant = b, true }
 func (c *Case) judge(v *version, cur []byte, changedOK bool) {
 	if c.contentBad == "" {
 		switch {
+		case !changedOK && c.prevExists && !v.Exists:
+			c.contentBad = fmt.Sprintf("save attempt %q could not produce a complete new version (provoked failure=%v err=%q skipped=%v) and %s, which held %d bytes, NO LONGER EXISTS: the path is neither the previous nor a complete new version",
+				v.Label, v.ExpectErr, v.Err, v.Skipped, filepath.Base(c.Dst), len(c.prev))
 		case !changedOK && (v.Exists != c.prevExists || !bytes.Equal(cur, c.prev)):
 			c.contentBad = fmt.Sprintf("save attempt %q could not produce a complete new version (provoked failure=%v err=%q skipped=%v) but %s changed: %d -> %d bytes; it is neither the previous nor a complete new version",
 				v.Label, v.ExpectErr, v.Err, v.Skipped, filepath.Base(c.Dst), len(c.prev), len(cur))
